@@ -120,9 +120,11 @@ def check(ctx):
     if ctx.ob("NF-DIST", "full arm found", len(full) == 1, f"{len(full)} candidates", site):
         ctx.ob("NF-DIST", "full arm distance == plain FPS distance", N.nf(T("emin", *sorted([H.term, full[0]["value"].term], key=repr))) == N.nf(fps.items[1].term), f"{full[0]['value'].term!r}", site)
     # the pick itself is the shared step of plain FPS
-    from .C02 import pick_rule
+    from .C02 import _score_checks, pick_rule
 
     pick_rule(ctx, N, "R-BOTHARMS", ("VoronoiFPS",))
+    # the readers hand out the tables the property speaks about (score / get_distance: the current minimum distances)
+    _score_checks(ctx, N, cls, "sample_selection", 0, "N", "VoronoiFPS", rule="R-RUNMIN")
     # ---- norms definition == _FPS ---------------------------------------------------------------
     _calibration(ctx, N, cls)
 
